@@ -3933,3 +3933,39 @@ impl fmt::Debug for PublishConfig {
         }
     }
 }
+
+/// Verification hook (add-only, compiled only with `--cfg libp2p_verif`): entry points of the
+/// behaviour's private state for the external verification harness. Thin wrappers only.
+#[cfg(libp2p_verif)]
+impl<D, F> Behaviour<D, F>
+where
+    D: DataTransform + Send + 'static,
+    F: TopicSubscriptionFilter + Send + 'static,
+{
+    /// Runs one heartbeat now (what `poll` does when the heartbeat timer fires).
+    pub fn verif_heartbeat(&mut self) {
+        self.heartbeat()
+    }
+
+    /// The fanout peers of a topic (`None`: no fanout entry).
+    pub fn verif_fanout(&self, topic: &TopicHash) -> Option<Vec<PeerId>> {
+        self.fanout.get(topic).map(|s| s.iter().copied().collect())
+    }
+
+    /// Pops everything queued for the peer's connection handlers, in wire form.
+    pub fn verif_drain_rpcs(&mut self, peer: &PeerId) -> Vec<proto::Rpc> {
+        let mut out = Vec::new();
+        let mut cx = Context::from_waker(futures::task::noop_waker_ref());
+        if let Some(p) = self.connected_peers.get_mut(peer) {
+            while let Poll::Ready(rpc) = p.messages.poll_pop(&mut cx) {
+                out.push(rpc.into_protobuf());
+            }
+        }
+        out
+    }
+
+    /// `BackoffStorage::is_backoff_with_slack` of the behaviour's own storage.
+    pub fn verif_is_backoff(&self, topic: &TopicHash, peer: &PeerId) -> bool {
+        self.backoffs.is_backoff_with_slack(topic, peer)
+    }
+}
